@@ -18,6 +18,7 @@ type site struct {
 	Fn   string // enclosing function (relative name)
 	Pos  string
 	What string
+	ArgT string // kind "argtype": the static type of the inspected argument
 }
 
 func relFuncName(fn *ssa.Function) string {
@@ -86,6 +87,7 @@ func scanSites(p *Program, rule InventoryRule) []site {
 				c := ci.Common()
 				name := callName(c)
 				hit := false
+				argT := ""
 				switch rule.Kind {
 				case "kvwriters":
 					if c.IsInvoke() && (c.Method.Name() == "Set" || c.Method.Name() == "Delete") && isKVStoreType(c.Value.Type()) {
@@ -105,6 +107,11 @@ func scanSites(p *Program, rule InventoryRule) []site {
 					if strings.Contains(strings.ReplaceAll(name, modPath+"/", ""), rule.Family) {
 						hit = true
 					}
+				case "argtype":
+					if strings.Contains(strings.ReplaceAll(name, modPath+"/", ""), rule.Family) && rule.Arg < len(c.Args) {
+						hit = true
+						argT = staticArgType(c.Args[rule.Arg])
+					}
 				}
 				if !hit {
 					continue
@@ -114,11 +121,30 @@ func scanSites(p *Program, rule InventoryRule) []site {
 				for owner.Parent() != nil {
 					owner = owner.Parent()
 				}
-				out = append(out, site{Fn: relFuncName(owner), Pos: fmt.Sprintf("%s:%d", strings.TrimPrefix(ps.Filename, repoDir()+"/"), ps.Line), What: name})
+				out = append(out, site{Fn: relFuncName(owner), Pos: fmt.Sprintf("%s:%d", strings.TrimPrefix(ps.Filename, repoDir()+"/"), ps.Line), What: name, ArgT: argT})
 			}
 		}
 	}
 	return out
+}
+
+// staticArgType: the type of the value behind interface conversions, loads and copies.
+func staticArgType(v ssa.Value) string {
+	for i := 0; i < 8; i++ {
+		switch x := v.(type) {
+		case *ssa.MakeInterface:
+			v = x.X
+			continue
+		case *ssa.ChangeInterface:
+			v = x.X
+			continue
+		case *ssa.ChangeType:
+			v = x.X
+			continue
+		}
+		break
+	}
+	return strings.ReplaceAll(v.Type().String(), modPath+"/", "")
 }
 
 func matchAny(name string, pats []string) bool {
@@ -148,6 +174,12 @@ func runInventory(p *Program, cx *Contracts, cfg *PropConfig) []*Obligation {
 				continue
 			}
 			hitFns[s.Fn] = true
+			if rule.Kind == "argtype" {
+				if !strings.Contains(s.ArgT, rule.ArgType) {
+					bad = append(bad, fmt.Sprintf("%s at %s passes %s as argument %d of %s (want %s)", s.Fn, s.Pos, s.ArgT, rule.Arg, lastName(s.What), rule.ArgType))
+				}
+				continue
+			}
 			if !matchAny(s.Fn, rule.Allowed) {
 				bad = append(bad, fmt.Sprintf("%s at %s (%s)", s.Fn, s.Pos, lastName(s.What)))
 			}
